@@ -47,6 +47,9 @@ CHECKS = {
  "C16": ("proof", "Lean 4 refinement theorem heap_refines_pure (reference-level heap model with aliasing refines the pure bins model under the hand-over discipline) + op_consistent, sortAsc_sorted_perm, copy_independent, args_unmodified + correspondence on operation sequences",
          "Full: for every finite disciplined operation sequence the heap model (numpy views, shared inner lists) agrees with the immutable specification on every live array; every array stays consistent; copies are independent in both directions. "
          "The heap model is compared with the real managers on every array (live or handed over) after every operation of bounded-exhaustive and random sequences.", TB),
+ "C17": ("proof", "Lean 4 theorems about the ILP formulation (rows_iff_feasible, objective_is_documented, decode_copies, result_order, unit_weights_wlog, solver_answer_spec) + capture of the model handed to the solver + certification against the brute-force optimum",
+         "The formulation handed to the MIP solver is modelled as data and proved to say exactly what the property states (copies, ascending weighted sums, caller constraints, documented objective); the read-back is proved to place each item copies[i] times "
+         "in the right bins and order. On every run the constraint system actually given to CBC is captured (wrapping mip.Model.optimize) and compared row by row with the Lean formulation, and CBC's answer is certified against the Lean brute-force optimum. The solver itself is trusted.", TB),
  "C18": ("proof", "Lean 4 theorems *_perm_sums, *_scale, isOptimal_perm/scale/zeros, optValue_* + metamorphic evaluation + agreement of exact solvers",
          "Permutation invariance and scaling proved for every heuristic (multifit in exact rationals); the specification optimum is proved invariant under permutation and zero items and linear under scaling, hence so is every algorithm with an optimality theorem "
          "(DP, complete greedy, CBLDM); CKK/SNP/RNP/ILP by certified evaluation (PARTIAL). Exact solvers are compared with each other on 11-16 items.", TB),
@@ -56,7 +59,7 @@ CHECKS = {
          "Validity and the cardinality bound proved for every input, bound and interruption point; optimality certified against the verified balanced oracle (optimality theorem stated-only: PARTIAL).", TB),
 }
 
-NOT_YET = {k: 'check under construction in this session (suite not yet registered); see DESIGN.md section 8' for k in ['C17']}
+NOT_YET = {k: 'check under construction in this session (suite not yet registered); see DESIGN.md section 8' for k in []}
 
 
 def main():
